@@ -1,6 +1,7 @@
 package lexer
 
 import (
+	"errors"
 	"fmt"
 	"log"
 	"strings"
@@ -12,6 +13,9 @@ const (
 	stickyChars     = "+*/=<>!-&|#%~"
 	nonStrickyChars = "(){}[],:"
 )
+
+// ErrUnterminated is the error for a string literal that reaches the end of the input.
+var ErrUnterminated = errors.New("Lexer: unterminated string literal")
 
 type str struct {
 	next   stateFunc // next state function
@@ -62,8 +66,8 @@ func whiteSpace(c rune) str {
 }
 
 func comment(c rune) str {
-	if c == '\n' {
-		return str{next: eol, doEmit: false, doAdv: true, typ: token.Invalid}
+	if c == '\n' || c == EOF {
+		return newSTR(c, token.Invalid, false, true, "")
 	}
 	return str{next: comment}
 }
@@ -103,6 +107,9 @@ func varName(c rune) str {
 
 func stringLit(c rune) str {
 	switch {
+	case c == EOF:
+		return str{err: ErrUnterminated}
+
 	case c == '"':
 		return str{next: stringLitEnd}
 
@@ -114,7 +121,10 @@ func stringLit(c rune) str {
 	}
 }
 
-func escapeStringLit(_ rune) str {
+func escapeStringLit(c rune) str {
+	if c == EOF {
+		return str{err: ErrUnterminated}
+	}
 	return str{next: stringLit}
 }
 
